@@ -94,6 +94,22 @@ def c18_pycode(w):
     w(f"def strReprProbes : List (List Char × List Char) := [" + ", ".join(f"({chars(x)}, {chars(repr(x))})" for x in sprobes) + "]")
     bprobes = [b"", b"a", b"a'b", b'a"b', b"a'b\"c", b"\\", b"\t\n\r", b"\x00\x1f\x7f\x80\xff"]
     w("def bytesReprProbes : List (List Nat × List Char) := [" + ", ".join(f"({nats(list(x))}, {chars(repr(x))})" for x in bprobes) + "]")
+    # how many brackets may be open at once before the tokenizer gives up ("too many nested parentheses")
+    def compiles(n):
+        try:
+            compile("[" * n + "1" + "]" * n, "<c18-nesting-probe>", "eval")
+            return True
+        except (SyntaxError, MemoryError, RecursionError):
+            return False
+
+    lo, hi = 1, 100000
+    while lo < hi:
+        mid = (lo + hi + 1) // 2
+        if compiles(mid):
+            lo = mid
+        else:
+            hi = mid - 1
+    w(f"def parserMaxNesting : Nat := {lo}")
     import keyword
 
     w(f"def pyKeywords : List (List Char) := {strs(keyword.kwlist)}")
